@@ -42,8 +42,13 @@ func (ir *inputReader) getContents(offset *int64, line *int) string {
 	for offset != nil && *offset > bufSize*3/4 {
 		n, err := io.Copy(&buf,
 			io.LimitReader(ir.rs, min(bufSize, *offset-bufSize/4)))
+		if n > 0 && buf.Bytes()[n-1] == '\r' { // do not split CRLF
+			n--
+			buf.Truncate(int(n))
+			_, _ = ir.rs.Seek(-1, io.SeekCurrent)
+		}
 		*offset -= n
-		*line += bytes.Count(buf.Bytes(), []byte{'\n'})
+		*line += countNewlines(buf.Bytes())
 		buf.Reset()
 		if err != nil || n == 0 {
 			break
@@ -57,6 +62,13 @@ func (ir *inputReader) getContents(offset *int64, line *int) string {
 	}
 	_, _ = io.Copy(&buf, r)
 	return buf.String()
+}
+
+// Counts the line terminators (LF, CRLF, and CR) in the same manner as the
+// error formatter, assuming that the bytes do not end with CR.
+func countNewlines(bs []byte) int {
+	return bytes.Count(bs, []byte{'\n'}) + bytes.Count(bs, []byte{'\r'}) -
+		bytes.Count(bs, []byte{'\r', '\n'})
 }
 
 type inputIter interface {
@@ -109,8 +121,11 @@ func (i *jsonInputIter) Next() (any, bool) {
 	if buf := i.ir.buf; buf != nil && buf.Len() >= 16*1024 {
 		// Discard only the consumed bytes because the decoder reads ahead.
 		n := int(i.dec.InputOffset() - i.offset)
+		if n > 0 && buf.Bytes()[n-1] == '\r' { // do not split CRLF
+			n--
+		}
 		i.offset += int64(n)
-		i.line += bytes.Count(buf.Next(n), []byte{'\n'})
+		i.line += countNewlines(buf.Next(n))
 	}
 	return v, true
 }
